@@ -1,0 +1,57 @@
+//go:build verif
+// +build verif
+
+package redis
+
+import (
+	"bytes"
+	"io"
+)
+
+// This file is only compiled with -tags verif. It re-exports the RESP codec
+// for the verification harness under /verif; it adds no behaviour.
+
+// VerifDecoder wraps the unexported RESP decoder.
+type VerifDecoder struct{ d *decoder }
+
+// VerifNewDecoder creates a decoder reading from r with the given buffer size.
+func VerifNewDecoder(r io.Reader, bufSize int) *VerifDecoder {
+	return &VerifDecoder{d: newDecoder(r, bufSize)}
+}
+
+// Decode decodes the next message.
+func (d *VerifDecoder) Decode() (*RespValue, error) { return d.d.Decode() }
+
+// VerifEncode encodes v with the real encoder (given buffer size) and flushes.
+func VerifEncode(v *RespValue, bufSize int) ([]byte, error) {
+	var b bytes.Buffer
+	e := newEncoder(&b, bufSize)
+	if err := e.Encode(v); err != nil {
+		return nil, err
+	}
+	if err := e.Flush(); err != nil {
+		return nil, err
+	}
+	return b.Bytes(), nil
+}
+
+// VerifEncodeAll encodes vs to one stream through a single encoder.
+func VerifEncodeAll(vs []*RespValue, bufSize int) ([]byte, error) {
+	var b bytes.Buffer
+	e := newEncoder(&b, bufSize)
+	for _, v := range vs {
+		if err := e.Encode(v); err != nil {
+			return nil, err
+		}
+	}
+	if err := e.Flush(); err != nil {
+		return nil, err
+	}
+	return b.Bytes(), nil
+}
+
+// VerifBtoi64 is btoi64.
+func VerifBtoi64(b []byte) (int64, error) { return btoi64(b) }
+
+// VerifItoa is itoa.
+func VerifItoa(i int64) string { return itoa(i) }
